@@ -161,3 +161,24 @@ Proof.
 Qed.
 Theorem rawkey_len16 rk : N.of_nat (length rk) <= max_key_size -> len16 rk.
 Proof. unfold len16, max_key_size. lia. Qed.
+
+(* ---------- whose table a redis key belongs to, by prefix (index build scan, table scans) ---------- *)
+(* rockredis/index_mgr.go dobuildIndexes walks the hash keys from "T:" on and stops at the first key that does
+   not have the prefix "T:" — with the separator: the keys with that prefix are exactly the keys of table T *)
+Theorem table_prefix_of_redis_key t raw : no_sep t ->
+  (is_prefix (t ++ [table_start_sep]) raw <-> exists k, extract_table raw = Ok (t, k)).
+Proof.
+  intros Ht. split.
+  - intros [s ->]. exists s. rewrite <- app_assoc. cbn [app]. now apply extract_table_pack.
+  - intros [k E]. apply extract_table_no_sep in E as [-> _]. exists k. unfold pack_redis_key.
+    rewrite <- app_assoc. reflexivity.
+Qed.
+
+(* the bare table name as the prefix is wrong: it also covers the keys of every table whose name extends it *)
+Theorem bare_table_prefix_refuted : exists t raw t' k,
+  no_sep t /\ is_prefix t raw /\ extract_table raw = Ok (t', k) /\ t' <> t.
+Proof.
+  exists [117; 115; 101; 114], [117; 115; 101; 114; 95; 98; 58; 100], [117; 115; 101; 114; 95; 98], [100].
+  split; [intros H; cbn in H; intuition discriminate|].
+  split; [now exists [95; 98; 58; 100]|]. split; [reflexivity|discriminate].
+Qed.
